@@ -90,6 +90,12 @@ func genCase(rt *rapid.T) Case {
 			c.Steps = append(c.Steps, Step{Op: &aclgen.Op{Kind: "request_remove", Actor: rapid.IntRange(1, n-1).Draw(rt, "leaver")}})
 		case 1: // a pending join request
 			c.Steps = append(c.Steps, Step{Op: &aclgen.Op{Kind: "request_join", Actor: rapid.IntRange(5, n-1).Draw(rt, "joiner"), Ref: rapid.IntRange(-1, 1).Draw(rt, "inv")}})
+		case 5: // a member asks to leave; somebody immediately aims a hand-made record at it
+			l := rapid.IntRange(1, n-1).Draw(rt, "leaver2")
+			c.Steps = append(c.Steps, Step{Op: &aclgen.Op{Kind: "request_remove", Actor: l}},
+				Step{F: &aclgen.Forge{Author: rapid.IntRange(0, n-1).Draw(rt, "aimAuthor"), Contents: []aclgen.FContent{{
+					Kind:   rapid.SampledFrom([]string{"accounts_add", "accounts_add", "perm_change", "account_remove", "request_accept", "request_decline", "ownership"}).Draw(rt, "aimKind"),
+					Target: l, T2: l, Perm: rapid.IntRange(0, 5).Draw(rt, "aimPerm"), Ref: rapid.IntRange(-2, 3).Draw(rt, "aimRef"), Variant: rapid.IntRange(0, 20).Draw(rt, "aimVariant")}}}})
 		case 4: // a hand-made invite of any shape, immediately used by somebody
 			inv := &aclgen.Forge{Author: rapid.IntRange(0, n-1).Draw(rt, "invAuthor"), Contents: []aclgen.FContent{{
 				Kind: "invite", Perm: rapid.IntRange(0, 5).Draw(rt, "invPerm"), Variant: rapid.IntRange(0, 7).Draw(rt, "invVariant")}}}
@@ -174,11 +180,24 @@ func rank(p int) int {
 }
 
 // checkTransition is the statement of C04 as an invariant over (before, author, after).
-func checkTransition(b, a view, author string) error {
+// A record may carry several contents, which the ACL applies in order: what a multi-content
+// record does is what the same contents would do as consecutive records. Two compositions are
+// therefore legitimate although the before/after comparison of the whole record looks like a
+// breach: (1) an outsider whose FIRST content joins through a live open invite acts, for the
+// rest of the record, with the permission the invite gave it; (2) an identity that the record
+// removes and then adds again is a fresh member (a removed guest is no longer a guest).
+// removedAndAdded holds the account ids named by both an account_remove and an accounts_add
+// content of the record.
+func checkTransition(b, a view, author string, removedAndAdded map[string]bool) error {
 	if len(b.owners) != 1 || len(a.owners) != 1 {
 		return fmt.Errorf("exactly one owner must exist: before %v, after %v", b.owners, a.owners)
 	}
 	ap := b.perm[author] // author's permission before the record
+	if ap == aclgen.None && a.perm[author] != aclgen.None {
+		// composition (1): judged below against the live open invites; the remaining contents
+		// are judged with the permission the join gave
+		ap = a.perm[author]
+	}
 	isOwner := ap == aclgen.Owner
 	ids := map[string]bool{}
 	for id := range b.perm {
@@ -202,7 +221,7 @@ func checkTransition(b, a view, author string) error {
 			return fmt.Errorf("account %s: ownership changed (%s -> %s) by non-owner author", id, aclgen.PermNames[pb], aclgen.PermNames[pa])
 		}
 		// guests are never re-permissioned (only removed)
-		if pb == aclgen.Guest && pa != aclgen.Guest && pa != aclgen.None {
+		if pb == aclgen.Guest && pa != aclgen.Guest && pa != aclgen.None && !removedAndAdded[id] {
 			return fmt.Errorf("guest %s re-permissioned to %s", id, aclgen.PermNames[pa])
 		}
 		if id != author && (pb != pa || sb != sa) && !canManage(ap) {
@@ -263,7 +282,7 @@ func checkTransition(b, a view, author string) error {
 		if rank(pa) > best {
 			return fmt.Errorf("outsider %s gained %s, more than any live open invite grants", author, aclgen.PermNames[pa])
 		}
-	case !canManage(pb) && pb != pa:
+	case pb != aclgen.None && !canManage(pb) && pb != pa && !removedAndAdded[author]:
 		return fmt.Errorf("ordinary member %s changed its own permission %s -> %s", author, aclgen.PermNames[pb], aclgen.PermNames[pa])
 	}
 	return nil
@@ -365,7 +384,27 @@ func run(c Case) (vstat.Outcome, error) {
 			nAccepted++
 			after := observe(w.Lists[w.Ref()])
 			classes["author-"+aclgen.PermNames[before.perm[authorId]]] = true
-			if err := checkTransition(before, after, authorId); err != nil {
+			ra := map[string]bool{}
+			if s.F != nil {
+				rm, ad := map[int]bool{}, map[int]bool{}
+				for _, fc := range s.F.Contents {
+					t, t2 := ((fc.Target%c.N)+c.N)%c.N, ((fc.T2%c.N)+c.N)%c.N
+					switch fc.Kind {
+					case "account_remove":
+						rm[t] = true
+						rm[t2] = true
+					case "accounts_add":
+						ad[t] = true
+						ad[t2] = true
+					}
+				}
+				for i := range rm {
+					if ad[i] {
+						ra[w.Keys[i].SignKey.GetPublic().Account()] = true
+					}
+				}
+			}
+			if err := checkTransition(before, after, authorId, ra); err != nil {
 				return fmt.Errorf("step %d: fully validating ACL accepted %s by account %d (%s before): %v", si, what, author, aclgen.PermNames[before.perm[authorId]], err)
 			}
 		}
